@@ -132,6 +132,12 @@ PATTERNS_QUICK = [
     ((2,), (2,), (2,)), ((2,), (), ()), ((), (2,), (2,)), ((), (1,), (2,)), ((2,), (1,), (2,)), ((1,), (2,), ()),
     ((2, 3), (2, 3), (2, 3)), ((2, 1), (3,), (1, 3)), ((), (2, 3), (3,)), ((3,), (2, 1), (2, 3)), ((2, 3), (), (1, 1)),
 ]
+# Cells in which the batch comes from the KERNEL only and the last batch size equals the number of points used by
+# part E (n = 3): a `batch x n` diagonal is then square — `diag=True` must not take a second diagonal of it.
+# Never thinned out in the quick tier (every kernel family, lazily_evaluate_kernels on and off).
+DIAG_AMBIGUOUS = [((3,), (), ()), ((2, 3), (), ()), ((3,), (1,), ()), ((3, 3), (), ())]
+PATTERNS_INDEX = list(PATTERNS_QUICK)          # parts B / C (indexing): the diag-ambiguous cells add nothing there
+PATTERNS_QUICK = PATTERNS_QUICK + DIAG_AMBIGUOUS
 
 
 def all_patterns():
@@ -518,7 +524,7 @@ def part_C(ctx, lines, recs, seedval):
     """RBF kernel with batched lengthscale: the object returned by _getitem holds x1', x2' and an indexed kernel"""
     import torch
     import gpytorch
-    pats = PATTERNS_QUICK if ctx.quick else all_patterns()
+    pats = PATTERNS_INDEX if ctx.quick else all_patterns()
     rng = ctx.rng("C")
     for kb, b1, b2 in pats:
         cell = Cell("rbf", kb, b1, b2, 3, 2, seedval)
@@ -611,16 +617,16 @@ def part_B(ctx, seedval):
     rng = ctx.rng("B")
     names = list(kernel_factories())
     allp = all_patterns()
-    extra = [p for p in allp if p not in PATTERNS_QUICK]
+    extra = [p for p in allp if p not in PATTERNS_INDEX]
     ncell = 0
     for name in names:
         t = MULTI_T.get(name, 1)
         if ctx.quick:
-            pats = PATTERNS_QUICK
+            pats = PATTERNS_INDEX
         elif name == "rbf":
-            pats = PATTERNS_QUICK + extra                       # every (kernel, x1, x2) batch triple
+            pats = PATTERNS_INDEX + extra                       # every (kernel, x1, x2) batch triple
         else:
-            pats = PATTERNS_QUICK + rng.sample(extra, 10)
+            pats = PATTERNS_INDEX + rng.sample(extra, 10)
         for pi, (kb, b1, b2) in enumerate(pats):
             heavy = name == "rbf" or (name in ("multitask", "rbf_ad") and pi < 4)
             if ctx.quick and not heavy and (pi + names.index(name)) % 3 != 0 and pi > 1:
@@ -672,9 +678,10 @@ def part_E(ctx, seedval, only=None, lines=None, recs=None):
         if only is None and not ctx.quick and name not in ("rbf", "rbf_ad", "scale_matern_ad", "sum_ad"):
             pats = PATTERNS_QUICK + rngE.sample([p for p in all_patterns() if p not in PATTERNS_QUICK], 12)
         elif only is None and not ctx.quick:
-            pats = all_patterns()
+            pats = PATTERNS_QUICK + [p for p in all_patterns() if p not in PATTERNS_QUICK]
         for pi, (kb, b1, b2) in enumerate(pats):
-            if only is None and ctx.quick and name not in ("rbf", "rbf_ad", "scale_matern_ad", "sum_ad") and (pi + names.index(name)) % 2 and pi > 3:
+            if only is None and ctx.quick and name not in ("rbf", "rbf_ad", "scale_matern_ad", "sum_ad") \
+                    and (pi + names.index(name)) % 2 and pi > 3 and (kb, b1, b2) not in DIAG_AMBIGUOUS:
                 continue
             n = 3
             cell = Cell(name, kb, b1, b2, n, n, seedval)     # square, x1 != x2
